@@ -15,6 +15,7 @@
 from __future__ import annotations
 
 import base64
+from http.cookies import SimpleCookie
 import codecs
 import io
 import json
@@ -60,6 +61,9 @@ def report_case(draw):
             # from the n-th request of the run on the operation answers differently: failures seen before meet new ones in one exchange
             "later": draw(st.sampled_from([None, None, "flip-type", "flip-type", "to-500", "to-200-html", "to-503-xml"])),
             "later_from": draw(st.sampled_from([2, 3, 4, 6, 9])),
+            # headers the HAR format also shows in derived fields (cookies, redirectURL), and a header sent twice
+            "extras": draw(st.sampled_from([None, None, "cookie", "two-cookies", "location", "twice"])),
+            "cookie_param": draw(st.booleans()),
         })
     return {
         "ops": ops,
@@ -85,7 +89,8 @@ def build_doc(inp) -> dict:
         elif op.get("param", "q") != "q":
             # a bounded integer gets boundary cases, so the coverage metadata names this parameter
             q["schema"] = {"type": "integer", "minimum": 1, "maximum": 9}
-        paths[op["path"] + "/{seg}"] = {"get": {"parameters": [q, {"name": "seg", "in": "path", "required": True, "schema": {"type": "string", "enum": ["plain", "it's", "a b"]}}], "responses": {"200": {"description": "ok", "content": {"application/json": {"schema": {}}}}, "default": {"description": "anything", "content": {"application/json": {"schema": {}}}}}}}
+        more = [{"name": "sid", "in": "cookie", "required": True, "schema": {"type": "string", "enum": ["abc", "d e"]}}] if op.get("cookie_param") else []
+        paths[op["path"] + "/{seg}"] = {"get": {"parameters": more + [q, {"name": "seg", "in": "path", "required": True, "schema": {"type": "string", "enum": ["plain", "it's", "a b"]}}], "responses": {"200": {"description": "ok", "content": {"application/json": {"schema": {}}}}, "default": {"description": "anything", "content": {"application/json": {"schema": {}}}}}}}
     if inp["links"]:
         paths["/c"] = {"post": {"operationId": "c", "requestBody": {"required": True, "content": {"application/json": {"schema": {"type": "object", "properties": {"n": {"type": "integer"}}, "required": ["n"]}}}},
                                 "responses": {"201": {"description": "ok", "links": {"l": {"operationId": "g", "parameters": {"id": "$response.body#/id"}}}}}}}
@@ -120,6 +125,7 @@ def make_script(inp):
         headers = {"Content-Type": content_type}
         if op["header"] is not None:
             headers["X-Note"] = op["header"]
+        headers.update(EXTRAS[op.get("extras")])
         body = op["body"].encode("latin-1") if status != 204 else b""
         return loopback.Reply(status=status, headers=headers, body=body)
 
@@ -253,7 +259,7 @@ def check_reports(ctx: Ctx, inp) -> None:
                 if not complete or i.get("status") != overall or (got and got != [want]):
                     ctx.disagree("vcr:check-results-differ-from-the-response", f"interaction {i['id']} ({phase_name}) answered {code}: status {i.get('status')!r}, checks {list(zip(names, [c.get('status') for c in checks]))}; expected not_a_server_error {want}", input=inp)
             # coverage metadata names the parameter as documented
-            documented_params = {op.get("param", "q") for op in inp["ops"]} | {"seg", "id", "application/json"}
+            documented_params = {op.get("param", "q") for op in inp["ops"]} | {"seg", "id", "sid", "application/json"}
             for i in inter:
                 data = ((i.get("phase") or {}).get("data") or {}) if isinstance(i.get("phase"), dict) else {}
                 if isinstance(data, dict) and data.get("parameter") is not None:
@@ -280,6 +286,11 @@ def check_reports(ctx: Ctx, inp) -> None:
                     noted = [v for k, vs in (i["response"].get("headers") or {}).items() if k.lower() == "x-note" for v in vs]
                     if op["header"] is not None and noted != [op["header"]]:
                         ctx.disagree("vcr:response-header-differs", f"recorded X-Note {noted!r}, sent {op['header']!r}", input=inp)
+                    if not inp["sanitize"]:
+                        for name, value in EXTRAS[op.get("extras")].items():
+                            want_values = value if isinstance(value, list) else [value]
+                            if _values(i["response"].get("headers") or {}, name.lower()) != want_values:
+                                ctx.disagree("vcr:response-header-differs", f"recorded {name} {_values(i['response'].get('headers') or {}, name.lower())!r}, sent {want_values!r}", input=inp)
                     sent = op["body"].encode("latin-1") if sent_status != 204 else b""
                     body = i["response"].get("body")
                     if inp["preserve_bytes"]:
@@ -334,6 +345,27 @@ def check_reports(ctx: Ctx, inp) -> None:
                     got_h = [h["value"] for h in e["response"].get("headers", []) if h["name"].lower() == "x-note"]
                     if got_h != [op["header"]]:
                         ctx.disagree("har:response-header-differs", f"recorded X-Note {got_h!r}, sent {op['header']!r}", input=inp)
+                if (e["response"].get("content") or {}).get("mimeType") != _ct:
+                    ctx.disagree("har:derived-field-differs-from-the-headers:mimeType", f"content.mimeType {(e['response'].get('content') or {}).get('mimeType')!r}, Content-Type sent {_ct!r}", input=inp)
+                if not inp["sanitize"]:
+                    extras = EXTRAS[op.get("extras")]
+                    for name, value in extras.items():
+                        want_values = value if isinstance(value, list) else [value]
+                        if _values(e["response"].get("headers"), name.lower()) != want_values:
+                            ctx.disagree("har:response-header-differs", f"recorded {name} {_values(e['response'].get('headers'), name.lower())!r}, sent {want_values!r}", input=inp)
+                    want_cookies = sorted((m.key, m.value) for v in (extras.get("Set-Cookie") if isinstance(extras.get("Set-Cookie"), list) else [extras["Set-Cookie"]] if "Set-Cookie" in extras else []) for m in SimpleCookie(v).values())
+                    got_cookies = sorted((c["name"], c["value"]) for c in e["response"].get("cookies") or [])
+                    if got_cookies != want_cookies:
+                        ctx.disagree("har:derived-field-differs-from-the-headers:response-cookies", f"cookies {got_cookies}, Set-Cookie sent {want_cookies}", input=inp)
+                    if (e["response"].get("redirectURL") or "") != extras.get("Location", ""):
+                        ctx.disagree("har:derived-field-differs-from-the-headers:redirectURL", f"redirectURL {e['response'].get('redirectURL')!r}, Location sent {extras.get('Location')!r}", input=inp)
+                    sent_cookie = req.header("Cookie")
+                    want_req = sorted((m.key, m.value) for m in SimpleCookie(sent_cookie or "").values())
+                    got_req = sorted((c["name"], c["value"]) for c in e["request"].get("cookies") or [])
+                    if got_req != want_req:
+                        ctx.disagree("har:derived-field-differs-from-the-headers:request-cookies", f"request cookies {got_req}, Cookie header sent {sent_cookie!r}", input=inp)
+                    if want_req or want_cookies or "Location" in extras:
+                        ctx.classes["har-entry-with-cookies-or-redirect"] += 1
                 sent = op["body"].encode("latin-1") if sent_status != 204 else b""
                 content = e["response"].get("content") or {}
                 text = content.get("text") or ""
@@ -358,6 +390,22 @@ def _compare_ids(ctx, name, ids, expected_ids, inp):
         extra = len(set(ids) - set(expected_ids))
         sig = f"{name}:exchange-recorded-twice" if dup else f"{name}:exchange-missing-from-the-report" if missing else f"{name}:exchange-not-in-the-traffic"
         ctx.disagree(sig, f"{name} has {len(ids)} answered interactions, the API answered {len(expected_ids)} requests (missing {missing}, extra {extra}, duplicates {dup})", input=inp)
+
+
+EXTRAS = {
+    None: {},
+    "cookie": {"Set-Cookie": "tok=xyz; Path=/; HttpOnly"},
+    "two-cookies": {"Set-Cookie": ["a=1; Path=/x", "b=2"]},
+    "location": {"Location": "/elsewhere?x=1"},
+    "twice": {"X-Twice": ["one", "two, three"]},
+}
+
+
+def _values(headers, name):
+    """Values of a header in a VCR mapping or a HAR record list."""
+    if isinstance(headers, dict):
+        return [v for k, vs in headers.items() if k.lower() == name for v in vs]
+    return [h["value"] for h in headers or [] if h["name"].lower() == name]
 
 
 def _answer(op, nth):
